@@ -583,3 +583,497 @@ Proof.
       apply negb_true_iff, N.eqb_neq. congruence.
   - apply NoDup_map_filter, I.
 Qed.
+
+Record RNPost (s : state) (b : N) (s' : state) (X : list N) : Prop := {
+  rp_nodes : nodes s' = filter (fun n => negb (memN (n_base n) X)) (nodes s);
+  rp_edges : edges s' = filter (fun e => negb (touches X e)) (edges s);
+  rp_inv : Inv s';
+  rp_sub : forall d, In d X -> has_node s d = true;
+  rp_sound : forall d, In d X -> Casc (abs s) b d;
+  rp_closed : forall d, has_node s' d = true -> Lost s s' d -> Good s' d;
+  rp_rlen : (List.length (rdeps s') <= List.length (rdeps s))%nat;
+  rp_next : next_ord s' = next_ord s;
+  rp_root : has_node s b = true -> In b X;
+  rp_noroot : has_node s b = false -> X = [] }.
+
+Definition keepE (X dn : list N) (b : N) (e : edesc) : bool :=
+  negb (touches X e) && negb ((tb e =? b) && memN (fb e) dn).
+
+Record LI (s : state) (b : N) (st : state) (X dn : list N) : Prop := {
+  li_nodes : nodes st = filter (fun n => negb (memN (n_base n) X)) (nodes s);
+  li_edges : edges st = filter (keepE X dn b) (edges s);
+  li_inv : Inv st;
+  li_sub : forall d, In d X -> has_node s d = true;
+  li_sound : forall d, In d X -> Casc (abs s) b d;
+  li_closed : forall d, has_node st d = true -> d <> b -> Lost s st d -> Good st d;
+  li_rlen : (List.length (rdeps st) <= List.length (rdeps s))%nat;
+  li_next : next_ord st = next_ord s }.
+
+Lemma keepE_false X dn b e : keepE X dn b e = false -> touches X e = true \/ tb e = b.
+Proof.
+  unfold keepE. destruct (touches X e); auto. simpl.
+  destruct (tb e =? b) eqn:E; simpl; [|discriminate]. apply N.eqb_eq in E. auto.
+Qed.
+
+Lemma casc_transfer s b st1 X dn d :
+  has_node s b = true ->
+  nodes st1 = filter (fun n => negb (memN (n_base n) X)) (nodes s) ->
+  edges st1 = filter (keepE X dn b) (edges s) ->
+  Inv st1 ->
+  (forall x, In x X -> Casc (abs s) b x) ->
+  has_node st1 d = true -> orphaned st1 d = true -> Linked s d b ->
+  forall x, Casc (abs st1) d x -> Casc (abs s) b x.
+Proof.
+  intros Hb HN HE I1 HX Hd Ho HL.
+  assert (F1 : forall x, has_node st1 x = has_node s x && negb (memN x X))
+    by (intros; apply has_node_filter; auto).
+  assert (TG : forall x e, In e (edges s) -> fb e = x -> has_node st1 x = true ->
+            (In e (edges st1) -> Casc (abs s) b (tb e) \/ has_node st1 (tb e) = false) ->
+            Casc (abs s) b (tb e) \/ has_node s (tb e) = false).
+  { intros x e Hin Hf Hx Hst. destruct (keepE X dn b e) eqn:Kp.
+    - assert (In e (edges st1)) by (rewrite HE; apply filter_In; auto).
+      destruct (Hst H) as [H1|H1]; auto. rewrite F1 in H1.
+      destruct (has_node s (tb e)); auto. simpl in H1. apply negb_false_iff in H1.
+      left. apply HX. apply memN_In; auto.
+    - apply keepE_false in Kp. destruct Kp as [T|T].
+      + unfold touches in T. apply orb_true_iff in T. destruct T as [T|T].
+        * rewrite F1, <- Hf, T, andb_false_r in Hx. discriminate.
+        * left. apply HX, memN_In; auto.
+      + left. rewrite T. apply casc_root. }
+  assert (SUB : forall e, In e (edges st1) -> In e (edges s))
+    by (intros e H; rewrite HE in H; apply filter_In in H; tauto).
+  assert (HS : forall x, has_node st1 x = true -> has_node s x = true)
+    by (intros x H; rewrite F1 in H; apply andb_true_iff in H; tauto).
+  apply cascS_ind.
+  - (* the root of the inner cascade *)
+    apply cascS_step; auto.
+    + destruct HL as [e [Hin [Hf Ht]]]. exists e. split; auto. split; auto.
+      rewrite Ht. apply casc_root.
+    + intros e Hin Hf. apply (TG d e); auto.
+      intros Hin1. right. apply (orphaned_true_targets st1 d e); auto.
+  - intros x Hx [e [Hin [Hf Hp]]] Hall. apply cascS_step; auto.
+    + exists e. auto.
+    + intros e' Hin' Hf'. apply (TG x e'); auto.
+Qed.
+
+Lemma Lost_refl_False s d : ~ Lost s s d.
+Proof. intros [e [H1 [_ H2]]]. auto. Qed.
+
+Lemma LI_init s b : Inv s -> LI s b s [] [].
+Proof.
+  intros I. split.
+  - symmetry. apply filter_true. auto.
+  - symmetry. apply filter_true. intros e _. unfold keepE, touches. simpl.
+    rewrite andb_false_r. reflexivity.
+  - exact I.
+  - intros d H; destruct H.
+  - intros d H; destruct H.
+  - intros d _ _ H. exfalso. eapply Lost_refl_False; eauto.
+  - lia.
+  - reflexivity.
+Qed.
+
+Definition dep_body (fuel' : nat) (k : key) (st : state) (d : key) : state :=
+  let st1 := remove_edge st d k None in
+  if orphaned st1 (k_base d) then remove_node fuel' st1 d else st1.
+
+Lemma dep_loop fuel' s k :
+  (forall s0 k0, Inv s0 -> (List.length (rdeps s0) < fuel')%nat ->
+                 exists X, RNPost s0 (k_base k0) (remove_node fuel' s0 k0) X) ->
+  Inv s -> has_node s (k_base k) = true -> (List.length (rdeps s) <= fuel')%nat ->
+  forall ds st X dn,
+    LI s (k_base k) st X dn ->
+    (forall d, In d ds -> In (k_base k, d) (rdeps s)) ->
+    (forall d, In d ds -> In (k_base k, d) (rdeps st) \/
+                          (List.length (rdeps st) < List.length (rdeps s))%nat) ->
+    exists X', LI s (k_base k) (fold_left (dep_body fuel' k) ds st) X' (dn ++ map k_base ds).
+Proof.
+  intros IHf I Hb Hfuel. set (b := k_base k) in *.
+  induction ds as [|d ds IHds]; intros st X dn L Hdep Hfu; simpl.
+  - exists X. rewrite app_nil_r. exact L.
+  - set (st1 := remove_edge st d k None).
+    assert (EQ : dep_body fuel' k st d =
+                 if orphaned st1 (k_base d) then remove_node fuel' st1 d else st1) by reflexivity.
+    rewrite EQ. clear EQ.
+    assert (N1 : nodes st1 = nodes st) by apply remove_edge_nodes.
+    assert (I1 : Inv st1) by (apply remove_edge_Inv, L).
+    assert (E1 : edges st1 = filter (keepE X (dn ++ [k_base d]) b) (edges s)).
+    { unfold st1. rewrite remove_edge_edges, (li_edges _ _ _ _ _ L), filter_filter.
+      apply filter_ext_in'. intros e _. unfold keepE, re_hit, linked, kind_hit.
+      rewrite memN_app, memN_single. fold b.
+      destruct (touches X e), (tb e =? b), (memN (fb e) dn), (fb e =? k_base d); reflexivity. }
+    assert (R1 : (List.length (rdeps st1) < List.length (rdeps s))%nat).
+    { destruct (Hfu d (or_introl eq_refl)) as [H|H].
+      - pose proof (remove_edge_rdeps_lt st d k H). pose proof (li_rlen _ _ _ _ _ L). unfold st1. lia.
+      - pose proof (remove_edge_rdeps_le st d k None). unfold st1. lia. }
+    assert (HN1 : forall x, has_node st1 x = has_node st x) by (intros; unfold has_node; rewrite N1; auto).
+    assert (A : forall x, has_node st1 x = true -> x <> b -> Lost s st1 x ->
+                Good st1 x \/ (x = k_base d /\ orphaned st1 x = true)).
+    { intros x Hx Hxb HLo. destruct (N.eq_dec x (k_base d)) as [->|Hne].
+      - destruct (orphaned st1 (k_base d)) eqn:O; auto. left. apply orphaned_false_Good; auto.
+      - left. assert (HLo' : Lost s st x).
+        { destruct HLo as [e [Hin [Hf Hnot]]]. exists e. split; auto. split; auto.
+          intros Hin'. apply Hnot. unfold st1. rewrite remove_edge_edges. apply filter_In.
+          split; auto. unfold re_hit, linked. destruct (fb e =? k_base d) eqn:E; auto.
+          apply N.eqb_eq in E. congruence. }
+        rewrite HN1 in Hx. destruct (li_closed _ _ _ _ _ L x Hx Hxb HLo') as [e [Hin [Hf Ht]]].
+        exists e. split; [|rewrite HN1; auto].
+        unfold st1. rewrite remove_edge_edges. apply filter_In. split; auto.
+        unfold re_hit, linked. destruct (fb e =? k_base d) eqn:E; auto.
+        apply N.eqb_eq in E. congruence. }
+    destruct (orphaned st1 (k_base d)) eqn:O.
+    + (* orphaned: recursive eviction *)
+      assert (Hlt : (List.length (rdeps st1) < fuel')%nat) by lia.
+      destruct (IHf st1 d I1 Hlt) as [X2 P2].
+      set (st2 := remove_node fuel' st1 d) in *.
+      assert (F2 : forall x, has_node st2 x = has_node st1 x && negb (memN x X2))
+        by (intros; apply has_node_filter; apply P2).
+      assert (L2 : LI s b st2 (X ++ X2) (dn ++ [k_base d])).
+      { split.
+        - rewrite (rp_nodes _ _ _ _ P2), N1, (li_nodes _ _ _ _ _ L), filter_filter.
+          apply filter_ext_in'. intros n _. rewrite memN_app, negb_orb. reflexivity.
+        - rewrite (rp_edges _ _ _ _ P2), E1, filter_filter. apply filter_ext_in'. intros e _.
+          unfold keepE. rewrite touches_app.
+          destruct (touches X e), (touches X2 e), ((tb e =? b) && memN (fb e) (dn ++ [k_base d])); reflexivity.
+        - apply P2.
+        - intros x Hx. apply in_app_iff in Hx. destruct Hx as [Hx|Hx]; [apply L; auto|].
+          pose proof (rp_sub _ _ _ _ P2 x Hx) as H. rewrite HN1 in H.
+          rewrite (has_node_filter s st X x (li_nodes _ _ _ _ _ L)) in H.
+          apply andb_true_iff in H. tauto.
+        - intros x Hx. apply in_app_iff in Hx. destruct Hx as [Hx|Hx]; [apply L; auto|].
+          apply (casc_transfer s b st1 X (dn ++ [k_base d]) (k_base d)); auto.
+          + rewrite N1. apply L.
+          + apply L.
+          + destruct (has_node st1 (k_base d)) eqn:Hh; auto.
+            rewrite (rp_noroot _ _ _ _ P2 Hh) in Hx. destruct Hx.
+          + apply (inv_rdeps s I). exists d. split; auto. apply Hdep. left; auto.
+          + apply P2; auto.
+        - intros x Hx Hxb HLo.
+          rewrite F2 in Hx. apply andb_true_iff in Hx. destruct Hx as [Hx1 Hx2].
+          apply negb_true_iff in Hx2.
+          destruct (existsb (fun e => (fb e =? x) && memN (tb e) X2) (edges st1)) eqn:EX.
+          + apply (rp_closed _ _ _ _ P2). { rewrite F2, Hx1, Hx2; auto. }
+            apply existsb_exists in EX. destruct EX as [e [Hin H]].
+            apply andb_true_iff in H. destruct H as [H1 H2]. apply N.eqb_eq in H1.
+            exists e. split; auto. split; auto. rewrite (rp_edges _ _ _ _ P2). intros H.
+            apply filter_In in H. destruct H as [_ H]. unfold touches in H.
+            rewrite H2, orb_true_r in H. discriminate.
+          + rewrite existsb_false in EX.
+            assert (TX : forall e, In e (edges st1) -> fb e = x -> memN (tb e) X2 = false).
+            { intros e Hin Hf. specialize (EX e Hin). rewrite Hf, N.eqb_refl in EX. exact EX. }
+            assert (KEEP : forall e, In e (edges st1) -> fb e = x -> In e (edges st2)).
+            { intros e Hin Hf. rewrite (rp_edges _ _ _ _ P2). apply filter_In. split; auto.
+              unfold touches. rewrite Hf, Hx2, (TX e Hin Hf). reflexivity. }
+            assert (HLo1 : Lost s st1 x).
+            { destruct HLo as [e [Hin [Hf Hnot]]]. exists e. split; [exact Hin|]. split; [exact Hf|].
+              intros H. apply Hnot. apply KEEP; auto. }
+            destruct (A x Hx1 Hxb HLo1) as [[e [Hin [Hf Ht]]]|[-> _]].
+            * exists e. split; [apply KEEP; auto|]. split; auto.
+              rewrite F2, Ht, (TX e Hin Hf). reflexivity.
+            * exfalso. pose proof (rp_root _ _ _ _ P2 Hx1) as H. apply memN_In in H. congruence.
+        - pose proof (rp_rlen _ _ _ _ P2). lia.
+        - rewrite (rp_next _ _ _ _ P2). unfold st1. rewrite remove_edge_next. exact (li_next _ _ _ _ _ L). }
+      destruct (IHds st2 (X ++ X2) (dn ++ [k_base d]) L2) as [X' LX'].
+      * intros d' Hd'. apply Hdep. right; auto.
+      * intros d' _. right. pose proof (rp_rlen _ _ _ _ P2). lia.
+      * exists X'. rewrite <- app_assoc in LX'. exact LX'.
+    + (* not orphaned *)
+      assert (L1 : LI s b st1 X (dn ++ [k_base d])).
+      { split.
+        - rewrite N1. exact (li_nodes _ _ _ _ _ L).
+        - exact E1.
+        - exact I1.
+        - exact (li_sub _ _ _ _ _ L).
+        - exact (li_sound _ _ _ _ _ L).
+        - intros x Hx Hxb HLo. destruct (A x Hx Hxb HLo) as [G|[-> O']]; auto. congruence.
+        - lia.
+        - unfold st1. rewrite remove_edge_next. exact (li_next _ _ _ _ _ L). }
+      destruct (IHds st1 X (dn ++ [k_base d]) L1) as [X' LX'].
+      * intros d' Hd'. apply Hdep. right; auto.
+      * intros d' _. right. exact R1.
+      * exists X'. rewrite <- app_assoc in LX'. exact LX'.
+Qed.
+
+Lemma remove_node_S fuel' s k :
+  remove_node (S fuel') s k =
+  if negb (has_node s (k_base k)) then s else
+  let s1 := fold_left (dep_body fuel' k) (dependents s (k_base k)) s in
+  let s2 := fold_left (fun st e => remove_edge st k (ed_to e) (Some (ed_kind e)))
+                      (filter (fun e => fb e =? k_base k) (edges s1)) s1 in
+  drop_node s2 (k_base k).
+Proof. reflexivity. Qed.
+
+Lemma dependents_In s b d : In d (dependents s b) <-> In (b, d) (rdeps s).
+Proof.
+  unfold dependents. rewrite in_map_iff. split.
+  - intros [[t k] [E Hin]]. simpl in E. subst. apply filter_In in Hin. destruct Hin as [Hin H].
+    simpl in H. apply N.eqb_eq in H. subst. auto.
+  - intros H. exists (b, d). split; auto. apply filter_In. split; auto. simpl. apply N.eqb_refl.
+Qed.
+
+Lemma RNPost_noop s b : Inv s -> has_node s b = false -> RNPost s b s [].
+Proof.
+  intros I Hb. split.
+  - symmetry. apply filter_true. auto.
+  - symmetry. apply filter_true. auto.
+  - exact I.
+  - intros d H; destruct H.
+  - intros d H; destruct H.
+  - intros d _ H. exfalso. eapply Lost_refl_False; eauto.
+  - lia.
+  - reflexivity.
+  - congruence.
+  - reflexivity.
+Qed.
+
+(* RemoveNode: functional post-condition; in particular 1 + |revDeps| fuel is enough *)
+Lemma remove_node_post : forall fuel s k,
+  Inv s -> (List.length (rdeps s) < fuel)%nat ->
+  exists X, RNPost s (k_base k) (remove_node fuel s k) X.
+Proof.
+  induction fuel as [|fuel' IHf]; intros s k I Hlt; [lia|].
+  rewrite remove_node_S. destruct (has_node s (k_base k)) eqn:Hb; simpl negb; cbv iota.
+  2:{ exists []. apply RNPost_noop; auto. }
+  set (b := k_base k) in *.
+  assert (Hfuel : (List.length (rdeps s) <= fuel')%nat) by lia.
+  destruct (dep_loop fuel' s k IHf I Hb Hfuel (dependents s b) s [] [] (LI_init s b I)) as [X L].
+  { intros d Hd. apply dependents_In; auto. }
+  { intros d Hd. left. apply dependents_In; auto. }
+  simpl app in L. cbv zeta.
+  set (s1 := fold_left (dep_body fuel' k) (dependents s b) s) in *.
+  set (dn := map k_base (dependents s b)) in *.
+  assert (INTO : forall e, In e (edges s) -> tb e = b -> memN (fb e) dn = true).
+  { intros e Hin Ht. assert (Lk : Linked s (fb e) b) by (exists e; auto).
+    apply (inv_rdeps s I) in Lk. destruct Lk as [key [Hk Hkb]].
+    apply memN_In. unfold dn. rewrite <- Hkb. apply in_map. apply dependents_In; auto. }
+  assert (NOIN : forall e, In e (edges s1) -> tb e <> b).
+  { intros e Hin Ht. rewrite (li_edges _ _ _ _ _ L) in Hin. apply filter_In in Hin.
+    destruct Hin as [Hin Kp]. unfold keepE in Kp. rewrite (INTO e Hin Ht), Ht, N.eqb_refl in Kp.
+    rewrite andb_false_r in Kp. discriminate. }
+  destruct (out_loop k b (filter (fun e => fb e =? b) (edges s1)) s1 (li_inv _ _ _ _ _ L) eq_refl)
+    as [I2 [N2 [O2 [R2 E2]]]].
+  set (s2 := fold_left (fun st e => remove_edge st k (ed_to e) (Some (ed_kind e)))
+                       (filter (fun e => fb e =? b) (edges s1)) s1) in *.
+  assert (E2' : edges s2 = filter (fun e => negb (fb e =? b)) (edges s1)).
+  { rewrite E2. apply filter_ext_in'. intros e Hin. f_equal.
+    destruct (fb e =? b) eqn:Ef.
+    - apply existsb_exists. exists e. split; [apply filter_In; auto|].
+      apply same_edge_true. apply N.eqb_eq in Ef. auto.
+    - apply existsb_false. intros x _. unfold same_edge. rewrite Ef. reflexivity. }
+  exists (X ++ [b]). split.
+  - simpl. rewrite N2, (li_nodes _ _ _ _ _ L), filter_filter. apply filter_ext_in'. intros n _.
+    rewrite memN_app, memN_single, negb_orb. reflexivity.
+  - simpl. rewrite E2', (li_edges _ _ _ _ _ L), filter_filter. apply filter_ext_in'. intros e Hin.
+    unfold keepE. fold b. rewrite touches_app.
+    assert (TS : touches [b] e = (fb e =? b) || (tb e =? b))
+      by (unfold touches; rewrite !memN_single; reflexivity).
+    rewrite TS. clear TS.
+    destruct (tb e =? b) eqn:Et.
+    + apply N.eqb_eq in Et. rewrite (INTO e Hin Et).
+      destruct (touches X e), (fb e =? b); reflexivity.
+    + destruct (touches X e), (fb e =? b); reflexivity.
+  - apply drop_node_Inv; auto. intros e Hin. rewrite E2' in Hin. apply filter_In in Hin.
+    destruct Hin as [Hin Hf]. split; [|apply NOIN; auto].
+    apply negb_true_iff, N.eqb_neq in Hf. auto.
+  - intros d Hd. apply in_app_iff in Hd. destruct Hd as [Hd|[<-|[]]]; auto.
+    apply (li_sub _ _ _ _ _ L); auto.
+  - intros d Hd. apply in_app_iff in Hd. destruct Hd as [Hd|[<-|[]]].
+    + apply (li_sound _ _ _ _ _ L); auto.
+    + apply casc_root.
+  - intros d Hd HLo.
+    assert (Hd' : has_node s1 d = true /\ d <> b).
+    { apply has_node_true in Hd. destruct Hd as [n [Hin Hn]]. simpl in Hin.
+      apply filter_In in Hin. destruct Hin as [Hin Hne]. rewrite N2 in Hin.
+      split; [apply has_node_true; eauto|]. apply negb_true_iff, N.eqb_neq in Hne. congruence. }
+    destruct Hd' as [Hd1 Hdb].
+    assert (HLo1 : Lost s s1 d).
+    { destruct HLo as [e [Hin [Hf Hnot]]]. exists e. split; [exact Hin|]. split; [exact Hf|].
+      intros H. apply Hnot. simpl. rewrite E2'. apply filter_In. split; auto.
+      apply negb_true_iff, N.eqb_neq. congruence. }
+    destruct (li_closed _ _ _ _ _ L d Hd1 Hdb HLo1) as [e [Hin [Hf Ht]]].
+    exists e. split; [|split; auto].
+    + simpl. rewrite E2'. apply filter_In. split; auto. apply negb_true_iff, N.eqb_neq. congruence.
+    + apply has_node_true in Ht. destruct Ht as [n [Hn Hnb]]. apply has_node_true.
+      exists n. split; auto. simpl. apply filter_In. rewrite N2. split; auto.
+      apply negb_true_iff, N.eqb_neq. rewrite Hnb. apply NOIN; auto.
+  - simpl. pose proof (length_filter_le (fun p : N * key => negb (fst p =? b)) (rdeps s2)).
+    pose proof (li_rlen _ _ _ _ _ L). lia.
+  - simpl. rewrite O2. exact (li_next _ _ _ _ _ L).
+  - intros _. apply in_app_iff. right. left. reflexivity.
+  - congruence.
+Qed.
+
+(* ------------------------------------------------------------------ E. closure iteration *)
+
+Lemma close_incl n grow : forall R, incl R (close n grow R).
+Proof.
+  induction n as [|n IH]; intros R; simpl; [apply incl_refl|].
+  intros x Hx. apply IH. apply in_app_iff. auto.
+Qed.
+
+Lemma close_fixed n grow : forall R, grow R = [] -> close n grow R = R.
+Proof.
+  induction n as [|n IH]; intros R H; simpl; auto. rewrite H, app_nil_r. auto.
+Qed.
+
+Section Closure.
+  Variable C : list N.
+  Variable grow : list N -> list N.
+  Hypothesis grow_new : forall R x, In x (grow R) -> In x C /\ ~ In x R.
+  Hypothesis grow_nodup : forall R, NoDup (grow R).
+
+  Lemma NoDup_app_disj (a b : list N) :
+    NoDup a -> NoDup b -> (forall x, In x b -> ~ In x a) -> NoDup (a ++ b).
+  Proof.
+    induction a as [|x a IH]; simpl; intros Ha Hb Hd; auto.
+    inversion Ha; subst. constructor.
+    - rewrite in_app_iff. intros [H|H]; auto. apply (Hd x H). auto.
+    - apply IH; auto. intros y Hy Hy'. apply (Hd y Hy). auto.
+  Qed.
+
+  Lemma close_reaches_fixpoint : forall n R,
+    NoDup R -> incl R C -> (List.length C <= List.length R + n)%nat ->
+    grow (close n grow R) = [].
+  Proof.
+    induction n as [|n IH]; intros R Hn Hi Hl; simpl.
+    - assert (Hnd : NoDup (R ++ grow R)).
+      { apply NoDup_app_disj; auto. intros x Hx. apply grow_new in Hx. tauto. }
+      assert (Hinc : incl (R ++ grow R) C).
+      { intros x Hx. apply in_app_iff in Hx. destruct Hx as [Hx|Hx]; auto.
+        apply grow_new in Hx. tauto. }
+      pose proof (NoDup_incl_length Hnd Hinc) as HL. rewrite app_length in HL.
+      destruct (grow R); auto. simpl in HL. lia.
+    - destruct (grow R) eqn:G.
+      + rewrite app_nil_r. rewrite close_fixed; auto.
+      + rewrite <- G. apply IH.
+        * apply NoDup_app_disj; auto. intros x Hx. apply grow_new in Hx. tauto.
+        * intros x Hx. apply in_app_iff in Hx. destruct Hx as [Hx|Hx]; auto.
+          apply grow_new in Hx. tauto.
+        * rewrite app_length, G. simpl. lia.
+  Qed.
+End Closure.
+
+(* --- the executable cascade of the spec computes the least fixed point *)
+
+Lemma casc_grow_In sp R d :
+  In d (casc_grow sp R) <->
+  In d (map sn_base (sp_nodes sp)) /\ ~ In d R /\
+  (exists e, In e (sp_edges sp) /\ se_from e = d /\ In (se_to e) R) /\
+  (forall e, In e (sp_edges sp) -> se_from e = d -> In (se_to e) R \/ sp_has sp (se_to e) = false).
+Proof.
+  unfold casc_grow. rewrite filter_In, !andb_true_iff, negb_true_iff, memN_false,
+    existsb_exists, forallb_forall.
+  split; intros [H1 [[H2 H3] H4]] || intros [H1 [H2 [H3 H4]]].
+  - split; auto. split; auto. split.
+    + destruct H3 as [e [He H]]. apply andb_true_iff in H. destruct H as [Hf Ht].
+      apply N.eqb_eq in Hf. apply memN_In in Ht. eauto.
+    + intros e He Hf. specialize (H4 e He). rewrite Hf, N.eqb_refl in H4. simpl in H4.
+      apply orb_true_iff in H4. destruct H4 as [H|H].
+      * left. apply memN_In; auto.
+      * right. apply negb_true_iff; auto.
+  - split; auto. split; [split; auto|].
+    + destruct H3 as [e [He [Hf Ht]]]. exists e. split; auto.
+      apply andb_true_iff. split; [apply N.eqb_eq; auto|apply memN_In; auto].
+    + intros e He. destruct (se_from e =? d) eqn:Ef; simpl; auto.
+      apply N.eqb_eq in Ef. destruct (H4 e He Ef) as [H|H].
+      * apply memN_In in H. rewrite H. reflexivity.
+      * rewrite H. simpl. apply orb_true_r.
+Qed.
+
+Lemma sp_has_true sp b : sp_has sp b = true <-> In b (map sn_base (sp_nodes sp)).
+Proof.
+  unfold sp_has. rewrite existsb_exists, in_map_iff. split; intros [n [A B]]; exists n.
+  - apply N.eqb_eq in B. auto.
+  - split; auto. apply N.eqb_eq; auto.
+Qed.
+
+Lemma close_casc_sound sp root n : forall R,
+  (forall x, In x R -> Casc sp root x) ->
+  forall x, In x (close n (casc_grow sp) R) -> Casc sp root x.
+Proof.
+  induction n as [|n IH]; intros R HR x Hx; simpl in Hx; auto.
+  apply (IH (R ++ casc_grow sp R)); auto.
+  intros y Hy. apply in_app_iff in Hy. destruct Hy as [Hy|Hy]; auto.
+  apply casc_grow_In in Hy. destruct Hy as [H1 [H2 [[e [He [Hf Ht]]] H4]]].
+  apply casc_step.
+  - apply sp_has_true; auto.
+  - exists e. auto.
+  - intros e' He' Hf'. destruct (H4 e' He' Hf'); auto.
+Qed.
+
+Lemma sp_casc_spec sp root :
+  NoDup (map sn_base (sp_nodes sp)) -> sp_has sp root = true ->
+  forall x, In x (sp_casc sp root) <-> Casc sp root x.
+Proof.
+  intros Hnd Hroot x. unfold sp_casc. split.
+  - apply close_casc_sound. intros y [<-|[]]. apply casc_root.
+  - set (F := close (List.length (sp_nodes sp)) (casc_grow sp) [root]).
+    assert (Hfix : casc_grow sp F = []).
+    { apply (close_reaches_fixpoint (map sn_base (sp_nodes sp))).
+      - intros R y Hy. apply casc_grow_In in Hy. tauto.
+      - intros R. unfold casc_grow. apply NoDup_filter; auto.
+      - constructor; [intros []|constructor].
+      - intros y [<-|[]]. apply sp_has_true; auto.
+      - rewrite map_length. simpl. lia. }
+    intros Hx. apply Hx.
+    + apply (close_incl _ _ [root]). left; auto.
+    + intros d Hd Hex Hall. destruct (memN d F) eqn:M; [apply memN_In; auto|].
+      exfalso. assert (In d (casc_grow sp F)).
+      { apply casc_grow_In. split; [apply sp_has_true; auto|].
+        split; [apply memN_false; auto|]. split; auto. }
+      rewrite Hfix in H. destruct H.
+Qed.
+
+(* --- RemoveNode refines the spec's removal *)
+
+Lemma RNPost_complete s b s' X :
+  RNPost s b s' X -> has_node s b = true -> forall d, Casc (abs s) b d -> In d X.
+Proof.
+  intros P Hb. apply cascS_ind.
+  - apply (rp_root _ _ _ _ P); auto.
+  - intros d Hd [e [Hin [Hf Ht]]] Hall. destruct (memN d X) eqn:M; [apply memN_In; auto|].
+    exfalso.
+    assert (F : forall x, has_node s' x = has_node s x && negb (memN x X))
+      by (intros; apply has_node_filter; apply P).
+    assert (Hd' : has_node s' d = true) by (rewrite F, Hd, M; auto).
+    assert (HLo : Lost s s' d).
+    { exists e. split; auto. split; auto. rewrite (rp_edges _ _ _ _ P). intros H.
+      apply filter_In in H. destruct H as [_ H]. unfold touches in H.
+      apply memN_In in Ht. rewrite Ht, orb_true_r in H. discriminate. }
+    destruct (rp_closed _ _ _ _ P d Hd' HLo) as [e' [Hin' [Hf' Ht']]].
+    rewrite (rp_edges _ _ _ _ P) in Hin'. apply filter_In in Hin'. destruct Hin' as [Hin' Hk].
+    rewrite F in Ht'. apply andb_true_iff in Ht'. destruct Ht' as [T1 T2].
+    destruct (Hall e' Hin' Hf') as [H|H].
+    + apply memN_In in H. rewrite H in T2. discriminate.
+    + congruence.
+Qed.
+
+Lemma abs_remove_node fuel s k :
+  Inv s -> (List.length (rdeps s) < fuel)%nat ->
+  abs (remove_node fuel s k) = sp_remove_node (abs s) (k_base k).
+Proof.
+  intros I Hlt. destruct (remove_node_post fuel s k I Hlt) as [X P].
+  unfold sp_remove_node. rewrite sp_has_abs. destruct (has_node s (k_base k)) eqn:Hb.
+  - assert (EQ : forall x, memN x X = memN x (sp_casc (abs s) (k_base k))).
+    { intros x. destruct (memN x X) eqn:M; symmetry.
+      - apply memN_In. apply sp_casc_spec.
+        + rewrite abs_nodes, map_map. simpl. apply I.
+        + rewrite sp_has_abs; auto.
+        + apply (rp_sound _ _ _ _ P). apply memN_In; auto.
+      - apply memN_false. intros H. apply sp_casc_spec in H.
+        + apply (RNPost_complete _ _ _ _ P Hb) in H. apply memN_In in H. congruence.
+        + rewrite abs_nodes, map_map. simpl. apply I.
+        + rewrite sp_has_abs; auto. }
+    unfold abs at 1. rewrite (rp_nodes _ _ _ _ P), (rp_edges _ _ _ _ P). f_equal.
+    + rewrite abs_nodes, filter_map_comm. apply f_equal. apply filter_ext_in'. intros n _.
+      simpl. rewrite EQ. reflexivity.
+    + rewrite abs_edges, filter_map_comm. apply f_equal. apply filter_ext_in'. intros e _.
+      unfold touches. simpl. rewrite !EQ. reflexivity.
+  - rewrite (rp_noroot _ _ _ _ P Hb) in P. unfold abs.
+    rewrite (rp_nodes _ _ _ _ P), (rp_edges _ _ _ _ P).
+    rewrite !filter_true; auto.
+Qed.
+
+Lemma remove_node_Inv fuel s k :
+  Inv s -> (List.length (rdeps s) < fuel)%nat -> Inv (remove_node fuel s k).
+Proof. intros I H. destruct (remove_node_post fuel s k I H) as [X P]. apply P. Qed.
